@@ -134,11 +134,13 @@ type boundsAnalysis struct {
 	substExpr map[types.Object]ast.Expr
 	terms     map[string]termInfo
 	// errFacts: pending contracts keyed by the error variable's canonical name
-	funcs   map[*core.Func]bool
-	pre     map[*core.Func][]precond // inferred preconditions on parameters
-	result  map[string]termInfo      // interval summaries of pure integer helpers, keyed by call canon
-	hook    func(ast.Node, factSet)  // optional observer of every node with the facts before it
-	escaped map[string]bool          // buffer-length terms whose buffer was handed to a retained writer
+	funcs     map[*core.Func]bool
+	pre       map[*core.Func][]precond // inferred preconditions on parameters
+	result    map[string]termInfo      // interval summaries of pure integer helpers, keyed by call canon
+	hook      func(ast.Node, factSet)  // optional observer of every node with the facts before it
+	escaped   map[string]bool          // buffer-length terms whose buffer was handed to a retained writer
+	guards    map[*core.Func][]lin     // guardSummary memo
+	guardBusy map[*core.Func]bool
 }
 
 type precond struct {
@@ -867,6 +869,26 @@ func (b *boundsAnalysis) rangeFacts(rs *ast.RangeStmt, facts factSet) {
 	}
 	kt := p.Canon(key)
 	b.killTerm(facts, kt)
+	if _, isFunc := p.TypeOf(rs.X).Underlying().(*types.Signature); isFunc {
+		// range over an iterator: the only one modelled is slices.Chunk(s, n), whose every
+		// yielded slice has between 1 and n elements (standard library contract)
+		b.killTerm(facts, "len("+b.sliceName(key)+")")
+		if call, isCall := ast.Unparen(rs.X).(*ast.CallExpr); isCall && len(call.Args) == 2 {
+			if f := p.Callee(call); f != nil && core.FuncFullName(f) == "slices.Chunk" {
+				if n, okN := b.linearise(call.Args[1]); okN {
+					t := "len(" + b.sliceName(key) + ")"
+					b.noteTerm(t, termInfo{lo: 0, hasLo: true})
+					ll := newLin()
+					ll.co[t] = 1
+					lo := ll.clone()
+					lo.k--
+					facts.addGE(lo)            // len(chunk) - 1 >= 0
+					facts.addGE(n.add(ll, -1)) // n - len(chunk) >= 0
+				}
+			}
+		}
+		return
+	}
 	var upper lin
 	ok := false
 	if isIntegerT(p.TypeOf(rs.X)) {
@@ -1037,6 +1059,98 @@ func (b *boundsAnalysis) callEffects(call *ast.CallExpr, facts factSet) {
 	}
 }
 
+// guardSummary: the facts about fi's parameters (and their lengths) that hold
+// at every return of fi that can report success (last result nil, or not
+// provably an error).
+func (b *boundsAnalysis) guardSummary(fi *core.Func) []lin {
+	if b.guards == nil {
+		b.guards = map[*core.Func][]lin{}
+		b.guardBusy = map[*core.Func]bool{}
+	}
+	if g, ok := b.guards[fi]; ok {
+		return g
+	}
+	if b.guardBusy[fi] {
+		return nil
+	}
+	b.guardBusy[fi] = true
+	defer delete(b.guardBusy, fi)
+	p := b.p
+	saveHook, saveEsc, saveSub := b.hook, b.escaped, b.substExpr
+	b.substExpr = nil
+	var rets []factSet
+	b.hook = func(n ast.Node, facts factSet) {
+		rs, ok := n.(*ast.ReturnStmt)
+		if !ok || p.EnclosingFunc(rs) != ast.Node(fi.Decl) {
+			return
+		}
+		if len(rs.Results) > 0 {
+			last := rs.Results[len(rs.Results)-1]
+			if call, isCall := ast.Unparen(last).(*ast.CallExpr); isCall && len(rs.Results) > 1 {
+				if f := p.Callee(call); f != nil && (core.FuncFullName(f) == "fmt.Errorf" || core.FuncFullName(f) == "errors.New") {
+					return // certainly an error
+				}
+			}
+			if id, isId := ast.Unparen(last).(*ast.Ident); isId && len(rs.Results) > 1 && !isNilIdent(p, last) {
+				// `return ..., err` directly inside `if err != nil { ... }`
+				if blk, ok := p.Parent(rs).(*ast.BlockStmt); ok {
+					if ifs, ok := p.Parent(blk).(*ast.IfStmt); ok && ifs.Body == blk {
+						if be, ok := ast.Unparen(ifs.Cond).(*ast.BinaryExpr); ok && be.Op == token.NEQ && isNilIdent(p, be.Y) {
+							if cid, ok := ast.Unparen(be.X).(*ast.Ident); ok && p.Info.Uses[cid] == p.Info.Uses[id] {
+								return
+							}
+						}
+					}
+				}
+			}
+		}
+		fs := facts.clone()
+		// facts about the returned variables are restated about the results ($res<i>)
+		for i, r := range rs.Results {
+			id, isId := ast.Unparen(r).(*ast.Ident)
+			if !isId || isNilIdent(p, r) {
+				continue
+			}
+			cn := p.Canon(id)
+			for _, pair := range [][2]string{{cn, fmt.Sprintf("$res%d", i)}, {"len(" + b.sliceName(id) + ")", fmt.Sprintf("len($res%d)", i)}} {
+				for _, f := range facts {
+					if co, ok := f.co[pair[0]]; ok && co != 0 {
+						r := newLin()
+						r.co[pair[1]] = 1
+						fs.addGE(f.subst(pair[0], r))
+					}
+				}
+			}
+		}
+		rets = append(rets, fs)
+	}
+	b.analyseFunc(fi, fi.Decl.Body, func(ast.Expr) bool { return false }, factSet{})
+	b.hook, b.escaped, b.substExpr = saveHook, saveEsc, saveSub
+	var out []lin
+	if len(rets) > 0 {
+		keys := make([]string, 0, len(rets[0]))
+		for k := range rets[0] {
+			keys = append(keys, k)
+		}
+		sort.Strings(keys)
+		for _, k := range keys {
+			f := rets[0][k]
+			all := true
+			for _, o := range rets[1:] {
+				if !b.prove(f, o) {
+					all = false
+					break
+				}
+			}
+			if all {
+				out = append(out, f)
+			}
+		}
+	}
+	b.guards[fi] = out
+	return out
+}
+
 // growTerm: the term may have increased by an unknown amount: lower bounds
 // on it survive, upper bounds do not.
 func (b *boundsAnalysis) growTerm(facts factSet, t string) {
@@ -1059,6 +1173,84 @@ func (b *boundsAnalysis) contract(call *ast.CallExpr, lhs []ast.Expr, facts fact
 		if id, ok := lhs[len(lhs)-1].(*ast.Ident); ok && id.Name != "_" {
 			errName = p.Canon(id)
 		}
+	}
+	// a same-package function whose last result is an error: what holds about its
+	// parameters at every return that can report success holds at the caller once the
+	// error was checked (a guard extracted into a validating helper)
+	if fi := p.ByObj[f]; fi != nil && f.Pkg() == p.Types && errName != "" && fi.Decl.Body != nil && len(b.substExpr) == 0 {
+		sig := f.Type().(*types.Signature)
+		if !sig.Variadic() && sig.Results().Len() >= 1 && core.TypeStr(p, sig.Results().At(sig.Results().Len()-1).Type()) == "error" {
+			var names []string
+			for _, fl := range fi.Decl.Type.Params.List {
+				if len(fl.Names) == 0 {
+					names = append(names, "")
+				}
+				for _, n := range fl.Names {
+					names = append(names, p.Canon(n))
+				}
+			}
+			if len(names) == len(call.Args) {
+				for _, fact := range b.guardSummary(fi) {
+					g := lin{co: map[string]int64{}, k: fact.k}
+					ok := true
+					for t, co := range fact.co {
+						var a lin
+						found := false
+						for i, pn := range names {
+							if pn == "" {
+								continue
+							}
+							if t == pn {
+								a, found = b.linearise(call.Args[i])
+							} else if t == "len("+pn+")" {
+								a, found = b.lenOf(call.Args[i])
+							} else {
+								continue
+							}
+							break
+						}
+						if !found && strings.Contains(t, "$res") {
+							for i, l := range lhs {
+								id, isId := ast.Unparen(l).(*ast.Ident)
+								if !isId || id.Name == "_" {
+									continue
+								}
+								nt := ""
+								if t == fmt.Sprintf("$res%d", i) {
+									nt = p.Canon(id)
+								} else if t == fmt.Sprintf("len($res%d)", i) {
+									nt = "len(" + b.sliceName(id) + ")"
+									b.noteTerm(nt, termInfo{lo: 0, hasLo: true})
+								}
+								if nt != "" {
+									a = newLin()
+									a.co[nt] = 1
+									found = true
+								}
+							}
+						}
+						if !found {
+							// a term local to the helper with a known constant bound on the useful
+							// side is replaced by that bound (x - E >= 0 and E >= lo  =>  x - lo >= 0)
+							if ti, known := b.terms[t]; known && co < 0 && ti.hasLo {
+								g.k += co * ti.lo
+								continue
+							} else if known && co > 0 && ti.hasHi {
+								g.k += co * ti.hi
+								continue
+							}
+							ok = false
+							break
+						}
+						g = g.add(a, co)
+					}
+					if ok {
+						errFacts[errName] = append(errFacts[errName], g)
+					}
+				}
+			}
+		}
+		return
 	}
 	switch core.FuncFullName(f) {
 	case "bufio.Reader.Peek": // err == nil  =>  len(result) >= n
